@@ -187,7 +187,10 @@ func stReplay(raw json.RawMessage, idx int, tr *traceWriter) {
 	// answered 304; a directory is redirected / falls through / is served through its index exactly as without the header
 	firstNextRan, firstWrittenAtNext, firstLeaked := nextRan, writtenAtNext, len(leaked)
 	nextRan, writtenAtNext = false, false
-	req3 := &http.Request{Method: c.Method, URL: &url.URL{Path: req.URL.Path}, Header: http.Header{"If-Modified-Since": {"Fri, 01 Jan 2100 00:00:00 GMT"}},
+	req3 := &http.Request{Method: c.Method, URL: &url.URL{Path: req.URL.Path}, Header: http.Header{"If-Modified-Since": {"Fri, 01 Jan 2100 00:00:00 GMT"},
+			// what a reverse proxy (or anybody) may announce about the "original" request: none of it moves a redirect or a file
+			"X-Forwarded-Prefix": {"//evil.example/app"}, "X-Forwarded-Host": {"evil.example"}, "X-Forwarded-Proto": {"https"},
+			"X-Original-Url": {"/secret"}, "X-Rewrite-Url": {"/secret"}, "X-Forwarded-For": {"10.0.0.1"}, "Forwarded": {"host=evil.example;proto=https"}},
 		Proto: "HTTP/1.1", ProtoMajor: 1, ProtoMinor: 1, Host: "x"}
 	w3 := httptest.NewRecorder()
 	func() {
